@@ -66,8 +66,8 @@ def checkProgram (prog : String) (results : List Shards) (resultCounters : List 
         throw s!"the result holds [{joinWith ";" scanRows}], the operators prescribe [{joinWith ";" want.flatten}]"
     else
       if !scanRows.isEmpty then throw "scanning a unit slice yielded rows"
-    -- WriterFunc nodes of the program
-    for w in ((writers.drop 8).toString.splitOn " ~ ").filter (· ≠ "") do
+    -- WriterFunc nodes of the program (with retried or recomputed tasks their logs hold every attempt: not judged then)
+    for w in (if lenient then [] else ((writers.drop 8).toString.splitOn " ~ ").filter (· ≠ "")) do
       match w.splitOn "=" with
       | [key, log] =>
         match key.splitOn "/" with
@@ -81,7 +81,7 @@ def checkProgram (prog : String) (results : List Shards) (resultCounters : List 
         | _ => throw "unparsable writer key"
       | _ => throw "unparsable writer log"
     -- Scan nodes
-    for sc in ((scans.drop 6).toString.splitOn " ~ ").filter (· ≠ "") do
+    for sc in (if lenient then [] else ((scans.drop 6).toString.splitOn " ~ ").filter (· ≠ "")) do
       match sc.splitOn "=" with
       | [key, log] =>
         match key.splitOn "/" with
@@ -97,7 +97,7 @@ def checkProgram (prog : String) (results : List Shards) (resultCounters : List 
           if !sameRows src.ordered rows wrows then throw s!"Scan {node} shard {shard} saw [{joinWith ";" rows}], the shard holds [{joinWith ";" wrows}]"
         | _ => throw "unparsable scan key"
       | _ => throw "unparsable scan log"
-    if isScan then
+    if isScan && !lenient then
       let nshard := out.rows.length
       let seen := (((scans.drop 6).toString.splitOn " ~ ").filter (· ≠ "")).length
       if seen != nshard then throw s!"Scan callback ran for {seen} of {nshard} shards"
